@@ -63,6 +63,7 @@ name of the model line that decided; it is reporting data, never compared by the
 inductive ErrKind
   | lib (c : LibExc)
   | nonlib (pyClass : String)
+  | oom (why : String)        -- input outside the modelled fragment: no claim, excluded from the tie
   deriving DecidableEq, Repr
 
 structure Err where
@@ -70,7 +71,9 @@ structure Err where
   site : String
   deriving DecidableEq, Repr
 
-def Err.isLib (e : Err) : Bool := match e.kind with | .lib _ => true | .nonlib _ => false
+def Err.isLib (e : Err) : Bool := match e.kind with | .lib _ => true | _ => false
+def Err.isOom (e : Err) : Bool := match e.kind with | .oom _ => true | _ => false
+def oomErr (why : String) : Err := ⟨.oom why, "oom"⟩
 
 def libErr (c : LibExc) (site : String) : Err := ⟨.lib c, site⟩
 def nonlibErr (cls : String) (site : String) : Err := ⟨.nonlib cls, site⟩
